@@ -232,6 +232,31 @@ func InjectHistory(steps []Step, opt sidecar.InjectConfigOptions) ([]byte, error
 	return data, nil
 }
 
+// InjectToRealFile feeds the steps to one injector that writes a REAL file (the production write path, no hook)
+// and returns the content of that file after the last step.
+func InjectToRealFile(dir string, steps []Step, opt sidecar.InjectConfigOptions) ([]byte, error) {
+	if err := os.MkdirAll(dir, 0o755); err != nil {
+		return nil, err
+	}
+	path := dir + "/prometheus-out.yml"
+	os.Remove(path)
+	defer os.Remove(path)
+	inj := sidecar.NewInjector(path, opt, prometheus.NewRegistry(), quiet)
+	for _, st := range steps {
+		if st.Info != nil {
+			if err := inj.ApplyConfig(st.Info); err != nil {
+				return nil, err
+			}
+		}
+		if st.Assigned != nil {
+			if err := inj.UpdateTargets(st.Assigned); err != nil {
+				return nil, err
+			}
+		}
+	}
+	return os.ReadFile(path)
+}
+
 // InjectRetryAfterWriteError: one injector; the assignment `first` is written (unless nil), then writing the file
 // for `second` fails once, then `second` is delivered again (the coordinator repeats an update that was not
 // acknowledged). Returns the file as it is on disk after the acknowledged retry.
